@@ -279,6 +279,10 @@ def run(ctx):
     c16.r161(ctx, repo['writer'])
     r1010(ctx)
     r1011(ctx)
+    from . import c14 as _c14
+    _c14.r146(ctx, 'R10.13')
+    _c14.r148(ctx, 'R10.14')
+    c16.r164(ctx, repo['writer'])
     from . import simple_append as _sa, c02 as _c02
     _sa.restore_rule(ctx, 'R10.12')
     _c02.r22(ctx)
